@@ -3,7 +3,7 @@ from checklib import cbytes, cbool, clist, cpair, cN, copt
 
 ID = "C20"
 HARNESS = "c20"
-N_CASES = {"quick": 520, "thorough": 6000}
+N_CASES = {"quick": 420, "thorough": 6000}
 N_SEARCH = {"quick": 1, "thorough": 2}
 SHARD = 60
 HAS_MODEL_OUT = True
@@ -140,7 +140,7 @@ def to_coq(c):
         full = cpair(obs(c["full"]), _sz(c["full_sizes"]))
     body = "mk %s %s %s %s %s %s %s %s %s" % (
         cfgt, envt, req, cbool(c.get("multi", False)), copt(reply), copt(bare),
-        copt(full), copt(_sz(c.get("self_sizes"))), cbool(c["alive"]))
+        copt(full), copt(_sz(c.get("self_sizes")) if _path(c) == "whoami" else None), cbool(c["alive"]))
     return "(" + " ".join(pool.binds + mbinds) + " " + body + ")"
 
 
